@@ -413,7 +413,7 @@ def bound_expect(real, val, bound):
 class C48(core.Prop):
     id = "C48"
     drivers = ["config_driver", "config_argv_driver", "config_inproc_driver"]
-    sizes = {"quick": 1200, "thorough": 60000}
+    sizes = {"quick": 1000, "thorough": 60000}
     max_workers = 8
     technique = ("property-based testing (Hypothesis): reference parsers (C strtol base 0 / strtod / the eight boolean spellings) and a table "
                  "of the documented validations, against set_parse / set_as_string / set_value<T> / sg_cfg_set_* / --cfg on a real Engine")
